@@ -341,7 +341,24 @@ fn logical_cases(seed: u64, tier: Tier) -> Vec<Logical> {
     let q1 = r::write_pass_file_with_key(&pk, &salt, &p1, &[500]);
     v.push(pcase("pass-decrypt/valid-1-chunk", Kind::PassDecrypt, q1.clone(), Some("filepw"), true, &p1));
     v.push(pcase("pass-decrypt/trailing-byte-1-chunk", Kind::PassDecrypt, [q1, vec![0x41]].concat(), Some("filepw"), false, &[]));
-    let _ = tier;
+    if tier == Tier::Thorough {
+        // boundary sizes in every command, valid and with the smallest damage at the very end
+        let kr_mid = format!("{}\n{}\n{}\n{}", proc::keyring_entry("zeta", &r::encode_pk(&r::x25519_base(&derive32(seed, "c12-zeta"))), None), alice.entry(true), decoys, bob.entry(true));
+        for n in [1usize, CS - 1, CS, CS + 1, 2 * CS] {
+            let p = plaintext(seed ^ 0xc500 ^ n as u64, n);
+            let ch: Vec<usize> = if n <= CS { vec![n] } else if n == 2 * CS { vec![CS, CS] } else { vec![CS, n - CS] };
+            let kf = r::write_key_file(&alice.sk, &bob.pk, &e, &pay, &p, &ch).unwrap();
+            let pf = r::write_pass_file_with_key(&pk, &salt, &p, &ch);
+            v.push(dec(&format!("decrypt/valid-{}-bytes-sender-in-the-middle", n), kf.clone(), &kr_mid, "bob", Some("bobpw"), true, &p, from_alice.clone()));
+            v.push(dec(&format!("decrypt/{}-bytes-last-tag-bit", n), flip(&kf, kf.len() - 1), &kr_mid, "bob", Some("bobpw"), false, &[], None));
+            v.push(dec(&format!("decrypt/{}-bytes-one-byte-short", n), kf[..kf.len() - 1].to_vec(), &kr_mid, "bob", Some("bobpw"), false, &[], None));
+            v.push(enc_case(&format!("encrypt/valid-{}-bytes", n), &kr_mid, "bob", "alice", Some("alicepw"), true, &p));
+            v.push(pcase(&format!("pass-encrypt/valid-{}-bytes", n), Kind::PassEncrypt, p.clone(), Some("filepw"), true, &p));
+            v.push(pcase(&format!("pass-decrypt/valid-{}-bytes", n), Kind::PassDecrypt, pf.clone(), Some("filepw"), true, &p));
+            v.push(pcase(&format!("pass-decrypt/{}-bytes-last-tag-bit", n), Kind::PassDecrypt, flip(&pf, pf.len() - 1), Some("filepw"), false, &[]));
+            v.push(pcase(&format!("pass-decrypt/{}-bytes-one-byte-short", n), Kind::PassDecrypt, pf[..pf.len() - 1].to_vec(), Some("filepw"), false, &[]));
+        }
+    }
     v
 }
 
@@ -453,6 +470,9 @@ pub fn run(rep: &'static Report) {
     for ci in 0..cases.len() {
         xjobs.push((ci, "preexisting-output"));
         xjobs.push((ci, "fifo-input"));
+        // variables the command has no business reading are set to plausible decoys: KESTREL_NEW_PASSWORD (a left-over
+        // of a key rotation) and, with -k given, KESTREL_KEYRING naming a keyring that binds the same names to other keys
+        xjobs.push((ci, "decoy-environment"));
         // the FILE argument is literally named like a command alias (dec, enc, pass, gen)
         for nm in ["alias-named-file/dec", "alias-named-file/enc", "alias-named-file/pass", "alias-named-file/gen", "alias-named-file/decrypt"] {
             xjobs.push((ci, nm));
@@ -483,6 +503,13 @@ pub fn run(rep: &'static Report) {
                         f.0 = nm.to_string();
                     }
                 }
+            }
+            if kind == "decoy-environment" {
+                let da = Party::new(rep.seed, "decoy-for-alice", "alicepw");
+                let db = Party::new(rep.seed, "decoy-for-bob", "bobpw");
+                let dkr = format!("{}\n{}\n", proc::keyring_entry("alice", &da.pk_enc, Some(&da.locked)), proc::keyring_entry("bob", &db.pk_enc, Some(&db.locked)));
+                files.push(("decoy-keyring.txt".to_string(), dkr.into_bytes()));
+                cmd = cmd.env("KESTREL_NEW_PASSWORD", "decoy-new-password").env("KESTREL_KEYRING", "decoy-keyring.txt");
             }
             if tty {
                 cmd.args.retain(|a| a != b"--env-pass");
@@ -548,7 +575,7 @@ pub fn run(rep: &'static Report) {
             }
             out.well_behaved()?;
             if out.ok() != l.succeeds {
-                return Err(format!("exit status {} but the operation {} when {}", if out.ok() { 0 } else { 1 }, if l.succeeds { "should complete" } else { "cannot complete" }, match kind { "fifo-input" => "the FILE argument is a named pipe carrying the same bytes".to_string(), "preexisting-output" => "the output path already holds a longer file".to_string(), k if k.starts_with("alias-named-file/") => format!("the input file is named '{}'", &k[17..]), k => format!("the password is typed at a terminal ({})", k) }));
+                return Err(format!("exit status {} but the operation {} when {}", if out.ok() { 0 } else { 1 }, if l.succeeds { "should complete" } else { "cannot complete" }, match kind { "fifo-input" => "the FILE argument is a named pipe carrying the same bytes".to_string(), "preexisting-output" => "the output path already holds a longer file".to_string(), "decoy-environment" => "KESTREL_NEW_PASSWORD and (next to -k) KESTREL_KEYRING are set to decoys".to_string(), k if k.starts_with("alias-named-file/") => format!("the input file is named '{}'", &k[17..]), k => format!("the password is typed at a terminal ({})", k) }));
             }
             if out.ok() {
                 let data = if w.stdout_output { out.stdout.clone() } else { sc.read("out.bin").ok_or("exit 0 but no output file")? };
